@@ -28,6 +28,7 @@ from pathlib import Path
 
 from .core import HarnessError
 
+EXTRA_OPS = {}  # plan operations registered by a check: name -> callable()
 ENG = None  # the engine of the running case (the substitutes below report to it)
 
 
@@ -486,7 +487,9 @@ def run_case(case, scratch: Path) -> History:
     return H
 
 
-def _run_one(case, scratch, run_index, done_before, prev=None) -> Engine:
+def _run_one(case, scratch, run_index, done_before, prev=None, xp_name=None, end_mode="teardown", workspace=None) -> Engine:
+    """end_mode: "teardown" (leave through __exit__ with an exception, harness clean-up only),
+    "normal" (leave the experiment block normally) or "exception" (an exception escapes it)"""
     global ENG
     from experimaestro import experiment
     from experimaestro.scheduler.base import JobState, FailedExperiment
@@ -494,11 +497,11 @@ def _run_one(case, scratch, run_index, done_before, prev=None) -> Engine:
     from experimaestro.scheduler.base import JobDependency
     from vx import sim
 
-    eng = Engine(case, scratch, run_index=run_index, done_before=done_before)
+    eng = Engine(case, scratch, workspace=workspace, run_index=run_index, done_before=done_before)
     ENG = eng
     CounterToken.TOKENS = {}
     os.environ["XPM_WORKDIR"] = str(scratch / "xpmwork")
-    xp = experiment(eng.workspace, f"sim{run_index}", port=-1)
+    xp = experiment(eng.workspace, xp_name or f"sim{run_index}", port=-1)
     xp.__enter__()
     eng.xp = xp
     loop = xp.central.loop
@@ -530,7 +533,7 @@ def _run_one(case, scratch, run_index, done_before, prev=None) -> Engine:
                 eng.stage1 = {j for j in prev.jobs if j not in stage2}
                 eng.notes.add("second-stage")
         elif run_index > 0:
-            plan = [op for op in plan if op[0] in ("submit", "dup", "wait")]
+            plan = [op for op in plan if op[0] in ("submit", "dup", "wait") or op[0] in EXTRA_OPS]
 
         def submit(j, dup):
             m = eng.jobs[j]
@@ -659,6 +662,8 @@ def _run_one(case, scratch, run_index, done_before, prev=None) -> Engine:
             elif op[0] == "frace":
                 if eng.case["tokens"][op[2]]["kind"] == "file":
                     eng.racers.append((op[1], op[2], op[3]))
+            elif op[0] in EXTRA_OPS:
+                EXTRA_OPS[op[0]]()
             else:
                 raise HarnessError(f"unknown plan op {op}")
 
@@ -736,8 +741,25 @@ def _run_one(case, scratch, run_index, done_before, prev=None) -> Engine:
                     c.wait(2)
                 except Exception:
                     pass
-            loop.call_soon_threadsafe(loop.stop)
-            xp.__exit__(RuntimeError, RuntimeError("teardown"), None)
+            all_final = all(m.objs[-1].state.finished() for m in eng.jobs.values() if m.objs) and xp.unfinishedJobs == 0
+            if end_mode == "normal" and all_final:
+                # what leaving the `with experiment(...)` block without an exception does
+                try:
+                    from experimaestro.scheduler.base import FailedExperiment
+
+                    try:
+                        # (the repository stops the loop from this thread; wake it so that it ends)
+                        xp.__exit__(None, None, None)
+                    except FailedExperiment:
+                        eng.exit_result = "failed"
+                    else:
+                        eng.exit_result = "ok"
+                finally:
+                    loop.call_soon_threadsafe(loop.stop)
+            else:
+                eng.exit_result = "exception" if end_mode == "exception" else ("hung" if end_mode == "normal" else "teardown")
+                loop.call_soon_threadsafe(loop.stop)
+                xp.__exit__(RuntimeError, RuntimeError("teardown"), None)
             central.join(2)
         except Exception:
             pass
